@@ -748,7 +748,20 @@ func pkgCallers(fn *ssa.Function) []ssa.Instruction {
 	}
 	var sites []ssa.Instruction
 	bad := false
-	for _, g := range PkgFuncs(fn.Pkg) {
+	// the functions of the package, and the instantiations of its generic functions (they have no package of their own)
+	scan := PkgFuncs(fn.Pkg)
+	if curProg != nil {
+		seen := map[*ssa.Function]bool{}
+		for _, g := range scan {
+			seen[g] = true
+		}
+		for _, g := range curProg.pandoraFuncs() {
+			if !seen[g] && PkgOf(g) == PkgOf(fn) {
+				scan = append(scan, g)
+			}
+		}
+	}
+	for _, g := range scan {
 		EachInstr(g, func(in ssa.Instruction) {
 			if cc := CC(in); cc != nil && cc.StaticCallee() == fn {
 				if _, isCall := in.(*ssa.Call); isCall {
